@@ -58,6 +58,22 @@ def check(ctx):
     multiplicity_rule(ctx, "R7", ['ode'], "the conserved sums")
 
 
+def _reads_same_entry(v, table, idx):
+    """v = <current count of entry idx of the table, 0 when absent> + <something>"""
+    if idx is None or v[0] != "binop" or v[1] != "Add":
+        return False
+
+    def is_table(x):
+        return (table is not None and x == table) or (x[0] == "attr" and x[2] == "element_count")
+    for a in (v[2], v[3]):
+        if a[0] == "meth" and is_table(a[1]) and a[2] == "get" and a[3] == (idx, ("const", 0)) and not a[4]:
+            return True
+        if a[0] == "bool" and a[1] == "Or" and len(a[2]) == 2 and a[2][1] == ("const", 0) and a[2][0][0] == "meth" and is_table(a[2][0][1]) \
+                and a[2][0][2] == "get" and a[2][0][3] == (idx,):
+            return True         # T.get(e) or 0
+    return False
+
+
 def _r6(ctx):
     """The composition table the element sums are built from accumulates: an element met at two places of a formula (CH3OH) is
     counted at both.  Every write to element_count[...] adds, or creates the entry of an element seen for the first time."""
@@ -75,9 +91,13 @@ def _r6(ctx):
             n += 1
             g = [(show(simp(c)).replace(" ", ""), p) for c, p in f.guards]
             absent = any((("inself.element_count" in c and "notin" not in c) and p is False) or ("notinself.element_count" in c and p is True) for c, p in g)
-            ok = (f.kind == "augstore" and getattr(f, "op", None) == "Add") or (f.kind == "store" and absent)
+            # T[e] = T.get(e, 0) + n  /  T[e] = n + T[e]: read-add-write of the same entry is `+=` (and creates the entry)
+            readadd = f.kind == "store" and _reads_same_entry(simp(f.value), f.extra.get("base"), simp(f.index) if f.index else None)
+            if readadd:
+                n += 1          # plays both roles: the accumulating write and the creating write
+            ok = (f.kind == "augstore" and getattr(f, "op", None) == "Add") or (f.kind == "store" and absent) or readadd
             ctx.check(ok, "R6", f"element_count:{f.kind}", (SPECIES, f.line),
-                      "adds to the count" if f.kind == "augstore" else "creates the entry only for an element not counted yet" if ok else
+                      "adds to the count" if f.kind == "augstore" or readadd else "creates the entry only for an element not counted yet" if ok else
                       "the count of an element is OVERWRITTEN when the element is met again: CH3OH gets H:1, the element totals and the renormalisation use wrong compositions",
                       expected="element_count[e] += n, or = n only when e is not in the table", found=f"{f.kind} guarded by {[c for c, _ in g][-1:]}")
         elif f.kind == "call" and f.value and f.value[0] == "meth" and f.value[2] in ("update", "setdefault", "__setitem__") and show(f.value[1]).endswith("element_count"):
@@ -335,6 +355,7 @@ MUTANTS = [
     {"name": "electron-hash-name", "file": SPECIES, "old": '            hash("Electron")\n            if self.is_electron', "new": '            hash(self.name)\n            if self.is_electron', "rules": ["R3"]},
 ]
 MUTANTS += [
+    {"name": "element-count-get-of-other-key", "file": SPECIES, "old": "        if element in self.element_count.keys():\n            self.element_count[element] += count\n        else:\n            self.element_count[element] = count\n", "new": "        self.element_count[element] = self.element_count.get(self.name, 0) + count\n", "rules": ["R6"]},
     {"name": "abund-of-other-list", "file": PHYS, "old": "zip(network.species, specabund)", "new": "zip(network.species | sort(attribute='name'), specabund)", "rules": ["R1"]},
     {"name": "term-count-of-element-species", "file": PHYS, "old": '{{ "{:.1f}".format(natom) ~ "*" ~ ab ~ " + "}}', "new": '{{ "{:.1f}*{} + ".format(elem.element_count.get(elemname), ab) }}', "rules": ["R1"]},
     {"name": "macro-header-last-key", "file": MACROS, "old": "#define IDX_ELEM_{{ spec.element_count.keys() | first }} {{ loop.index0 }}", "new": "{% set sym = spec.element_count | last %}\n#define IDX_ELEM_{{ sym }} {{ loop.index0 }}", "rules": ["R1"]},
@@ -345,6 +366,7 @@ MUTANTS += [
     {"name": "alias-single-M", "file": SPECIES, "old": 'else "M" * abs(self.charge),', "new": 'else "M",', "rules": ["R4"]},
 ]
 BENIGN = [
+    {"name": "element-count-get-plus", "file": SPECIES, "old": "        if element in self.element_count.keys():\n            self.element_count[element] += count\n        else:\n            self.element_count[element] = count\n", "new": "        self.element_count[element] = self.element_count.get(element, 0) + count\n"},
     {"name": "abund-symbol-per-species", "edits": [
         {"file": PHYS, "old": '        {% set specabund = network.species | map(attribute="alias") | map("prefix", "y[IDX_") | map("suffix", "]") -%}\n', "new": ""},
         {"file": PHYS, "old": "        return {% for spec, ab in zip(network.species, specabund) -%}\n", "new": '        return {% for spec in network.species -%}\n               {% set ab = spec.alias | prefix("y[IDX_") | suffix("]") -%}\n'}]},
